@@ -298,7 +298,7 @@ class NormDomain(Domain):
                     return self.lift(v.r.conj())
                 except NormError:
                     return Unknown('conj')
-            if name in ('astype', 'copy', 'squeeze', 'view', 'ravel', 'flatten', 'item'):
+            if name in ('astype', 'copy', 'squeeze', 'view', 'ravel', 'flatten', 'item', 'reshape'):
                 return v
         return None
 
